@@ -1,6 +1,7 @@
 """C06 - the parser is total and its diagnostics point at the offending source.
 Monitors: exception filter + position-consistency oracle on every BareScriptParserError, marker accounting
 on every accepted text, open-construct rejection, context-independent columns, prepend-shift metamorphic relation (also with blank/comment lines holding FF, VT, NEL, U+2028/9)."""
+import io
 import json
 import random
 import re
@@ -143,10 +144,52 @@ def fields(exc):
     return (exc.error, exc.line, exc.column_number, exc.line_number, '\n'.join(str(exc).split('\n')[-3:]))
 
 
+def outcome_of(parse_script, perr, arg, start):
+    try:
+        return ('model', json.dumps(parse_script(arg, start), sort_keys=True))
+    except perr as exc:
+        return ('error',) + fields(exc)[:4]
+    except RecursionError:
+        return ('recursion',)
+    except Exception as exc:  # pylint: disable=broad-except
+        return ('host-exception', type(exc).__name__, str(exc)[:200])
+
+
+def check_input_forms(text, acc, api, start, case):
+    """script_text is `str or iterable of str`: the same lines delivered as a list, a tuple, a one-shot generator, an iterator, a
+    file object (lines keep their line ends) or multi-line chunks give the same model or the same diagnostic (error, line, column,
+    line number) as the str form."""
+    parse_script, perr = api
+    if '\r' in text:
+        return
+    lines = text.split('\n')
+    want = outcome_of(parse_script, perr, text, start)
+    if want[0] == 'recursion':
+        return
+    k = max(1, len(lines) // 2)
+    forms = {'list': lambda: list(lines), 'tuple': lambda: tuple(lines), 'generator': lambda: (ln for ln in lines), 'iterator': lambda: iter(list(lines)),
+             'file-object': lambda: io.StringIO(text), 'map': lambda: map(str, lines), 'chunks': lambda: iter(['\n'.join(lines[:k]), '\n'.join(lines[k:])] if len(lines) > 1 else [text])}
+    for name, mk in forms.items():
+        got = outcome_of(parse_script, perr, mk(), start)
+        acc.count('input_form_comparisons')
+        if name == 'file-object':
+            # parts are joined by line ends: a part that ends in a line end contributes an empty line of its own
+            want_f = outcome_of(parse_script, perr, '\n'.join(io.StringIO(text)), start)
+            if got != want_f:
+                acc.violation('input-form-changes-outcome', f'{name}: {got!r:.300} but the equivalent str gives {want_f!r:.300}\n{text!r:.500}', dict(case, form=name))
+                return
+            continue
+        if got != want:
+            acc.violation('input-form-changes-outcome', f'{name}: {got!r:.300} but the str form gives {want!r:.300}\n{text!r:.500}', dict(case, form=name))
+            return
+
+
 def check_text(text, acc, api, start=1, must_reject=False, reject_or_account=False, kind='soup', expect_col=None):
     """Run the real parser on text under the full oracle. Returns the exception or model."""
     parse_script, perr = api
     case = {'text': text, 'start': start, 'must_reject': must_reject, 'kind': kind}
+    if len(text) % 4 == 1:
+        check_input_forms(text, acc, api, start, case)
     nontrivial = text.count('\n') >= 1 or len(text) > 120
     acc.case(text, nontrivial)
     acc.cover('kinds', kind)
